@@ -262,11 +262,15 @@ CHECKS = {
               "under a watchdog; the race detector halts the shard on any race; census - the multiset of (date, kind, accounts/commodities, amounts, description) of the built journal equals "
               "what the generator wrote into the files (transactions after reference accrual expansion); with a fault the call returns an error of a failing stage (not success, not a bare "
               "cancellation); afterwards no goroutine of the loader or pipeline is left. (b) subprocess: the -race build of knut, 3 runs with different perturbation seeds/GOMAXPROCS, must "
-              "report no race, exit like the plain binary and print the same bytes; a fault must give exit != 0. Non-trivial: >=3 files, >=20 distinct days, >=3 pipeline stages."),
+              "report no race, exit like the plain binary and print the same bytes; a fault must give exit != 0. (c) registries: 2-16 goroutines resolve the same 1-60 account or commodity names "
+              "concurrently, 5-40 rounds on fresh registries: every name must resolve to one object for all callers (a duplicate would split report rows and lose prices). "
+              "Non-trivial: >=3 files, >=20 distinct days, >=3 pipeline stages; (c) >=2 names and >=2 goroutines."),
         assumptions=["detection of races is probabilistic: a race is seen only if the conflicting accesses overlap in some run (perturbation, GOMAXPROCS variation, repetition raise the odds)",
                      "liveness is checked as: returns within 90 s (in-process) / the two-stage subprocess timeout"],
-        quick=dict(race_bin=True, race_test=True, tests=[dict(name="TestC19Lib", cases=480, sched_env=True, timeout="30m"), dict(name="TestC19CLI", cases=160, timeout="30m")]),
-        thorough=dict(race_bin=True, race_test=True, tests=[dict(name="TestC19Lib", cases=9600, sched_env=True, timeout="120m"), dict(name="TestC19CLI", cases=3200, timeout="120m")]),
+        quick=dict(race_bin=True, race_test=True, tests=[dict(name="TestC19Lib", cases=480, sched_env=True, timeout="30m"), dict(name="TestC19CLI", cases=160, timeout="30m"),
+                                                        dict(name="TestC19Registry", cases=1600, shards=8, timeout="30m")]),
+        thorough=dict(race_bin=True, race_test=True, tests=[dict(name="TestC19Lib", cases=9600, sched_env=True, timeout="120m"), dict(name="TestC19CLI", cases=3200, timeout="120m"),
+                                                           dict(name="TestC19Registry", cases=32000, shards=8, timeout="120m")]),
     ),
     "C18": dict(
         level="fault_enumeration",
